@@ -291,12 +291,11 @@ class EFloatFormat(EncodableFormat):
                     ebits = bitmask(self.es)
                     mbits = 0
                 case EFloatNanKind.MAX_VAL:
-                    if self.pmax == 1:
-                        ebits = bitmask(self.es) - 1
-                        mbits = 1
-                    else:
-                        ebits = bitmask(self.es)
-                        mbits = bitmask(self.m) - 1
+                    # infinity is the code just below NaN (all ones), as in `decode`;
+                    # with an empty mantissa field that is the previous exponent
+                    inf_bits = bitmask(self.nbits - 1) - 1
+                    ebits = inf_bits >> self.m
+                    mbits = inf_bits & bitmask(self.m)
                 case EFloatNanKind.NEG_ZERO | EFloatNanKind.NONE:
                     ebits = bitmask(self.es)
                     mbits = bitmask(self.m)
